@@ -40,6 +40,7 @@ impl Prop for P {
             rule: "CompressorOxide::with_params(Zlib, level 0..=12, strategy 0..=4, window_bits 0..=16) over inputs dominated by copy-backs at distances just inside / just beyond / far beyond each declarable window (256..32768) and random blocks repeated once, under generated call schedules; oracle: CINFO+8 <= max(w,8), reference inflater in declared-window mode (distance > 2^(CINFO+8) is an error), the crate's own decoder with a ring of exactly the declared size, and system zlib told to trust the header (windowBits=0, 37-byte output chunks). Non-trivial = the input contains a repeat of >= 3 bytes at a distance in (declared window, 32768] that a window-ignoring compressor would use; distinct by case fingerprint",
             assumptions: &["reference inflater (self-checked)", "level changes after construction are outside the statement ('created with')"],
             dbg: false,
+            simd: false,
             exhaustive: None,
         }
     }
